@@ -31,6 +31,7 @@ def showAssem (a : Assem) : String :=
 def showState (s : State) : String :=
   "full=" ++ showBool s.full ++ " next=" ++ toString s.next ++ " convAdded=" ++ showInts s.convAdded
     ++ " edgeAdded=" ++ showInts s.edgeAdded ++ " kids=" ++ showList showAssem s.kids
+    ++ " names=" ++ showInts ((s.kids.map (·.id)).mergeSort (fun a b => decide (a ≤ b)))
 
 def empty : State := ⟨[], false, 0, true, [], false, []⟩
 
